@@ -518,6 +518,11 @@ def main(argv):
     if argv[0] == "--setup":
         return setup()
     prop = argv[0]
+    if prop in registry.LOAD_ERRORS:
+        rp = write_replay(prop, os.environ.get("VERIF_SEED", "1"), "quick",
+                          dict(property=prop, broken=[dict(kind="registration", what=f"lib/props/{prop}.py does not load: {registry.LOAD_ERRORS[prop]}")]))
+        print(f"VIOLATION property={prop} replay={rp} no-failing-input-found")
+        return 1
     if prop not in registry.PROPS:
         print(f"unknown or unclaimed property {prop}")
         return 2
